@@ -1,9 +1,183 @@
+import PbBss.Model.Posterior
 import Driver.Util
-/-! line-protocol operations of the `Posterior` models (stub: filled in by the owner of these models) -/
+/-! line-protocol operations of the `Posterior` models (properties C01, C04, C05).
+Every op: `name <ints…> <float bit patterns…>`; complex numbers travel as `re im`. -/
+open PbBss PbBss.Posterior
 namespace Driver
+
+def tokInt (a : Array String) (i : Nat) : Int := (a[i]!).toInt!
+
+def natList (a : Array String) (off n : Nat) : List Nat := (List.range n).map fun i => tokNat a (off + i)
+def intList (a : Array String) (off n : Nat) : List Int := (List.range n).map fun i => tokInt a (off + i)
+
+def cx (a : Array String) (off i : Nat) : CF := ⟨fl a off (2*i), fl a off (2*i+1)⟩
+
+def fmtCx (xs : List CF) : String := fmtFloats (xs.flatMap fun z => [z.re, z.im])
+
+def epsOf (e : Float) : Option Float := epsOption e
+
+def styleOf (s : String) : EpsStyle := if s == "plus" then .plus else if s == "max" then .max else .where_
+
+def tieOf (a : Array String) (off : Nat) : Tie := ⟨tokNat a off == 1, tokNat a (off+1) == 1, tokNat a (off+2) == 1⟩
+
+/-- posterior over a whole `(F, K+1, T)` array: `wf f k t` = broadcast weight, `lpf` = log-pdf -/
+def postAll (F K1 T : Nat) (tiny : Float) (eps : Option Float) (wf lpf : Nat → Nat → Nat → Float)
+    (mask : Option (Nat → Nat → Nat → Bool)) : List Float :=
+  match K1 with
+  | 0 => []
+  | K+1 =>
+    (List.range F).flatMap fun f =>
+      -- one table per (f, t) column, then transpose to (k, t) order
+      let cols : Array (Array Float) := (Array.range T).map fun t =>
+        let col := affiliation (K := K) tiny eps (fun k => wf f k.val t) (fun k => lpf f k.val t)
+          (mask.map fun m k => m f k.val t)
+        (Array.ofFn col)
+      (List.range (K+1)).flatMap fun k => (List.range T).map fun t => (cols[t]!)[k]!
 
 def opsPosterior (a : Array String) : Option String :=
   match a[0]! with
+  | "aff" =>
+    -- aff K1 hasMask <tiny> <eps> <w K1> <lp K1> [mask K1 ints]
+    let K1 := tokNat a 1; let hasMask := tokNat a 2 == 1
+    let tiny := tokFloat a 3; let eps := epsOf (tokFloat a 4)
+    match K1 with
+    | 0 => some ""
+    | K+1 =>
+      let w : Fin (K+1) → Float := fun k => fl a 5 k.val
+      let lp : Fin (K+1) → Float := fun k => fl a (5 + (K+1)) k.val
+      let mask : Option (Fin (K+1) → Bool) :=
+        if hasMask then some fun k => tokNat a (5 + 2*(K+1) + k.val) == 1 else none
+      some (fmtFloats ((List.finRange (K+1)).map (affiliation tiny eps w lp mask)))
+  | "predict" =>
+    -- predict F K1 T hasMask nshape <shape…> <tiny> <eps> <wdata prod(shape)> <lp F*K1*T> [mask F*K1*T ints]
+    let F := tokNat a 1; let K1 := tokNat a 2; let T := tokNat a 3; let hasMask := tokNat a 4 == 1
+    let ns := tokNat a 5
+    let shape := natList a 6 ns
+    let o := 6 + ns
+    let tiny := tokFloat a o; let eps := epsOf (tokFloat a (o+1))
+    let nw := shape.foldl (· * ·) 1
+    let ow := o + 2; let ol := ow + nw; let om := ol + F*K1*T
+    let wf := fun f k t => weightAt (fun i => fl a ow i) shape f k t
+    let lpf := fun f k t => fl a ol ((f*K1 + k)*T + t)
+    let mask : Option (Nat → Nat → Nat → Bool) :=
+      if hasMask then some fun f k t => tokNat a (om + (f*K1 + k)*T + t) == 1 else none
+    some (fmtFloats (postAll F K1 T tiny eps wf lpf mask))
+  | "ipredict" =>
+    -- ipredict F K1 T naxis <axis…> nshape <shape…> <tiny> <eps> <sw> <spw> <wdata> <lpA F*K1*T> <lpB F*K1*T>
+    let F := tokNat a 1; let K1 := tokNat a 2; let T := tokNat a 3
+    let na := tokNat a 4
+    let axis := intList a 5 na
+    let ns := tokNat a (5 + na)
+    let shape := natList a (6 + na) ns
+    let o := 6 + na + ns
+    let tiny := tokFloat a o; let eps := epsOf (tokFloat a (o+1))
+    let sw := tokFloat a (o+2); let spw := tokFloat a (o+3)
+    let nw := shape.foldl (· * ·) 1
+    let ow := o + 4; let oa := ow + nw; let ob := oa + F*K1*T
+    match unsqueezeShape shape axis with
+    | none => some "index-error"
+    | some sh =>
+      let wf := fun f k t => weightAt (fun i => fl a ow i) sh f k t
+      let lpf := fun f k t => integrationLogPdf sw spw (fl a oa ((f*K1 + k)*T + t)) (fl a ob ((f*K1 + k)*T + t))
+      some (fmtNats sh ++ " | " ++ fmtFloats (postAll F K1 T tiny eps wf lpf none))
+  | "unsq" =>
+    -- unsq nshape <shape…> naxis <axis…>
+    let ns := tokNat a 1
+    let shape := natList a 2 ns
+    let na := tokNat a (2 + ns)
+    let axis := intList a (3 + ns) na
+    match unsqueezeShape shape axis with
+    | none => some "index-error"
+    | some sh => some ("ok " ++ fmtNats sh)
+  | "bidx" =>
+    -- bidx nshape <shape…> nidx <idx…>
+    let ns := tokNat a 1
+    let shape := natList a 2 ns
+    let ni := tokNat a (2 + ns)
+    some (toString (bcastOffset shape (natList a (3 + ns) ni)))
+  | "estw" =>
+    -- estw <mean|sal|integ> F K T tieF tieK tieT intMinus2 <eps> <γ F*K*T> <sal F*T>
+    let F := tokNat a 2; let K := tokNat a 3; let T := tokNat a 4
+    let tie := tieOf a 5
+    let i2 := tokNat a 8 == 1
+    let eps := tokFloat a 9
+    let og := 10; let os := og + F*K*T
+    let γ : Fin F → Fin K → Fin T → Float := fun f k t => fl a og ((f.val*K + k.val)*T + t.val)
+    let sal : Fin F → Fin T → Float := fun f t => fl a os (f.val*T + t.val)
+    let rule : WeightRule Float :=
+      if a[1]! == "mean" then .mean i2 else if a[1]! == "sal" then .saliency i2 eps else .integration
+    let w := mixWeight rule tie γ sal
+    some (fmtFloats ((List.finRange F).flatMap fun f => (List.finRange K).flatMap fun k =>
+      (List.finRange T).map fun t => w f k t))
+  | "unifnorm" =>
+    -- unifnorm K <u K>
+    let K := tokNat a 1
+    some (fmtFloats ((List.finRange K).map (uniformNormalized (fun k : Fin K => fl a 2 k.val))))
+  | "flaglabels" =>
+    -- flaglabels K N
+    let K := tokNat a 1; let N := tokNat a 2
+    some (fmtNats ((List.range N).map (flagLabel K N)))
+  | "flag" =>
+    -- flag K N <minimum> <labels N ints>          (branch minimum != 0; minimum == 0 is `onehot`)
+    let K := tokNat a 1; let N := tokNat a 2
+    if h : 0 < K then
+      let labels : Fin N → Fin K := fun n => ⟨tokNat a (4 + n.val) % K, Nat.mod_lt _ h⟩
+      let r := flag (tokFloat a 3) labels
+      some (fmtFloats ((List.finRange K).flatMap fun k => (List.finRange N).map fun n => r k n))
+    else some ""
+  | "onehot" =>
+    let K := tokNat a 1; let N := tokNat a 2
+    if h : 0 < K then
+      let labels : Fin N → Fin K := fun n => ⟨tokNat a (3 + n.val) % K, Nat.mod_lt _ h⟩
+      let r : Fin K → Fin N → Float := oneHot labels
+      some (fmtFloats ((List.finRange K).flatMap fun k => (List.finRange N).map fun n => r k n))
+    else some ""
+  | "dirichlett" =>
+    -- dirichlett K N <draws N*K>
+    let K := tokNat a 1; let N := tokNat a 2
+    let r : Fin K → Fin N → Float := dirichletT fun n k => fl a 3 (n.val*K + k.val)
+    some (fmtFloats ((List.finRange K).flatMap fun k => (List.finRange N).map fun n => r k n))
+  | "defltail" =>
+    -- defltail K <eps> <sims K>
+    let K := tokNat a 1
+    some (fmtFloats ((List.finRange (K+1)).map (deflationTail (tokFloat a 2) (fun k : Fin K => fl a 3 k.val))))
+  | "deflsim" =>
+    -- deflsim D <z D complex> <m D complex>
+    let D := tokNat a 1
+    let r : Float := deflationSimilarity (fun d : Fin D => cx a 2 d.val) (fun d : Fin D => cx a (2 + 2*D) d.val)
+    some (fmtFloats [r])
+  | "unitnorm" =>
+    -- unitnorm <plus|max|where> D <eps> <y D complex>
+    let D := tokNat a 2
+    let r := unitNorm (α := Float) (styleOf a[1]!) (tokFloat a 3) (fun d : Fin D => cx a 4 d.val)
+    some (fmtCx ((List.finRange D).map r))
+  | "normmaxr" =>
+    -- normmaxr D <tiny> <y D>
+    let D := tokNat a 1
+    some (fmtFloats ((List.finRange D).map (normalizeMaxR (tokFloat a 2) (fun d : Fin D => fl a 3 d.val))))
+  | "quadform" =>
+    -- quadform D <B D*D complex> <z D complex>
+    let D := tokNat a 1
+    let r : CF := quadForm (α := Float) (fun d e : Fin D => cx a 2 (d.val*D + e.val)) (fun d : Fin D => cx a (2 + 2*D*D) d.val)
+    some (fmtCx [r])
+  | "innerabssq" =>
+    -- innerabssq D <w D complex> <z D complex>
+    let D := tokNat a 1
+    let r : Float := innerAbsSq (fun d : Fin D => cx a 2 d.val) (fun d : Fin D => cx a (2 + 2*D) d.val)
+    some (fmtFloats [r])
+  | "scatter" =>
+    -- scatter D N <s N> <z N*D complex>
+    let D := tokNat a 1; let N := tokNat a 2
+    let r := scatter (α := Float) (fun n : Fin N => fl a 3 n.val) (fun (n : Fin N) (d : Fin D) => cx a (3 + N) (n.val*D + d.val))
+    some (fmtCx ((List.finRange D).flatMap fun d => (List.finRange D).map fun e => r d e))
+  | "resultant" =>
+    -- resultant D N <s N> <y N*D>
+    let D := tokNat a 1; let N := tokNat a 2
+    let r := resultant (fun n : Fin N => fl a 3 n.val) (fun (n : Fin N) (d : Fin D) => fl a (3 + N) (n.val*D + d.val))
+    some (fmtFloats ((List.finRange D).map r))
+  | "dotr" =>
+    let D := tokNat a 1
+    some (fmtFloats [dotR (fun d : Fin D => fl a 2 d.val) (fun d : Fin D => fl a (2 + D) d.val)])
   | _ => none
 
 end Driver
